@@ -1,7 +1,7 @@
 """MANIFEST texts of the `str` family."""
 STR_NOTE = ("Trusted: Lean kernel + axioms {propext, Classical.choice, Quot.sound}; the hand-written model of string.rs / str/lossy.rs is tied "
             "to the code by the differential run (sampling) and by tools/extract_str.py (UTF8_CHAR_WIDTH, TAG_CONT_U8, the form of `n + 1` in "
-            "drain/replace_range are regenerated from the source on every run); Lean's String.utf8EncodeChar is taken as the definition of "
+            "drain/replace_range, whether retain has its unwind guard, are regenerated from the source on every run); Lean's String.utf8EncodeChar is taken as the definition of "
             "UTF-8 and Lean's Char as Rust's char; core::str, char::encode_utf8, decode_utf16 are modelled from their documented contracts; "
             "Vec<u8> growth and Splice belong to the vec family (capacity is only checked as capacity >= len here); 64-bit only.")
 CLAIMS = {
@@ -9,9 +9,11 @@ CLAIMS = {
         text="Theorems (Lean, for all strings and arguments, by induction): every String method of the model preserves well-formed UTF-8 and "
              "refines the obvious List Char function (push, push_str, pop, insert, insert_str, remove, truncate, clear, retain with a "
              "non-panicking closure = filter, drain, replace_range, split_off, extend, clone, into_bump_str); a method panics iff its index is "
-             "not on a char boundary or out of range; the lossy decoder (transcribed from Utf8LossyChunksIter::next over the regenerated width "
-             "table) always outputs valid UTF-8 and is the identity on valid input; from_utf8 accepts iff the bytes are valid; from_utf16 fails "
-             "iff a lone surrogate occurs; the 256-entry width table agrees with the RFC 3629 lead-byte classes. Correspondence: generated "
+             "not on a char boundary or out of range, and range bounds at usize::MAX panic in every build profile; the lossy decoder (transcribed from Utf8LossyChunksIter::next over the regenerated width "
+             "table) always outputs valid UTF-8, is the identity on valid input and equals the reference decoder 'U+FFFD per maximal subpart' defined "
+             "from Unicode Table 3-7 without the table; from_utf8 accepts iff the bytes are valid; from_utf16 fails "
+             "iff a lone surrogate occurs; the regenerated width table agrees with the RFC 3629 lead-byte classes wherever the decoder depends on it; validity "
+             "is an invariant of every program (induction over operation lists). Correspondence: generated "
              "programs run on bumpalo String, std String and the model (same results, text, panics; valid UTF-8 after every operation; every "
              "byte index and range form incl. ..=usize::MAX), decoders against std on all byte strings of length <= 3 and structured longer "
              "ones, UTF-16 around the surrogate boundaries.",
